@@ -409,7 +409,10 @@ func (ex *Exec) Run() {
 	}
 	// requires
 	if con != nil {
-		for _, cl := range con.Of("requires") {
+		for _, cl := range append(con.Of("requires"), con.Of("requires-assumed")...) {
+			if cl.Kind == "requires-assumed" {
+				ex.note("assumed precondition of " + fi.Name + " (not checked at call sites): " + cl.Text)
+			}
 			env := &SpecEnv{st: ex.st, old: ex.entry, names: copyNames(ex.params), pkg: fi.Pkg.Types}
 			t, err := ex.specTerm(cl.Expr, env)
 			if err != nil {
